@@ -10,7 +10,7 @@ META = {
         "links of streams outside the list are stale: NULL or pointers to other stream objects",
         "snprintf/fprintf have empty bodies; allocation succeeds",
     ],
-    "outside": ["more than 3 live streams before the step", "real pthread creation/affinity"],
+    "outside": ["more than 3 live streams before the step", "real pthread creation/affinity", "native-thread state machine: each side is checked against a model of the other (assume-guarantee), pthread mutex/cond semantics are the stubs of harness/C17/native.c"],
 }
 SPIN = ["ABTD_spinlock_acquire.0:2"]
 
@@ -31,6 +31,12 @@ def obligations(tier):
         o.append(Obl("main_sched_" + nm, "C17/mainsched.c", d, defs=["BR=%d" % br], unwind=5, object_bits=11, backend="cadical", no_std=["--pointer-overflow-check"],
                      encodes=["xstream_update_main_sched", "ABTI_thread_set_associated_pool", "ABTI_ythread_suspend_replace_sched", "ABTI_ythread_resume_and_push"],
                      bounds="1..3 pools per scheduler, one pending replacement", symbolic="numbers of pools, the caller's pool, automatic flags, pending replacement, failure of the user-defined pool"))
+    for m, nm, d in [(0, "thread_func", "focus = the REAL native-thread function; controller (join / revive / free) as a model acting at its lock acquisitions, while the stream runs and while it sleeps (spurious wake-ups allowed)"),
+                     (1, "controller", "focus = the REAL ABTD_xstream_context_join / revive / free in the order join, [revive, join], free; the native thread as a model of the thread function's steps")]:
+        o.append(Obl("native_" + nm, "C17/native.c", "native-thread state machine (arch/abtd_stream.c), " + d + ": the stream's main function runs exactly once per create/revive and never after free, join returns only after the run has finished, every awaited state change is followed by a signal to a sleeper (no lost wake-up), spurious wake-ups change nothing, free returns only after the thread has left",
+                     defs=["MODE=%d" % m], unwind=5, cut_loops=["xstream_context_thread_func@while \\(p_ctx->state == ABTD_XSTREAM_CONTEXT_STATE_WAITING:4", "ABTD_xstream_context_join@while \\(p_ctx->state == ABTD_XSTREAM_CONTEXT_STATE_REQ_JOIN:4"], object_bits=10, backend="cadical",
+                     encodes=["xstream_context_thread_func", "ABTD_xstream_context_join", "ABTD_xstream_context_revive", "ABTD_xstream_context_free"],
+                     bounds="create + <=1 revive + free; <=3 steps of the other party per sleep; <=3 spurious wake-ups per wait loop (cut by assumption)", symbolic="when the other party acts, spurious wake-ups, whether the stream is revived"))
     return o
 
 MANIFEST_ENTRY = {
